@@ -79,3 +79,31 @@ func c20FirstStartCrash(c *Ctx) {
 		os.RemoveAll(filepath.Dir(d))
 	}
 }
+
+// c20HashPrecision: structures that differ only in an integer above 2^53 (an explicit accessory id) are different
+// structures: the configuration hash must differ. And the hash does not depend on values, nor change between two
+// computations.
+func c20HashPrecision(c *Ctx) {
+	mk := func(id uint64, v bool) *accessory.Container {
+		sw := accessory.NewSwitch(accessory.Info{Name: "H", ID: id})
+		sw.Switch.On.SetValue(v)
+		cont := accessory.NewContainer()
+		cont.AddAccessory(sw.Accessory)
+		return cont
+	}
+	for i, p := range [][2]uint64{{1 << 53, 1<<53 + 1}, {1<<53 + 1, 1<<53 + 2}, {1<<63 - 1, 1 << 63}, {1<<64 - 2, 1<<64 - 1}, {5, 6}} {
+		id := fmt.Sprintf("hash-precision#%d", i)
+		if c.Skip(id) {
+			continue
+		}
+		h1, h2, h1v := mk(p[0], false).ContentHash(), mk(p[1], false).ContentHash(), mk(p[0], true).ContentHash()
+		in := map[string]interface{}{"accessory_ids": []string{fmt.Sprint(p[0]), fmt.Sprint(p[1])}}
+		if string(h1) == string(h2) {
+			c.Violate("configuration hash does not change although the structure of the accessory database changed (the configuration number would not increase)", id, in, "different hashes", hx(h1))
+		}
+		if string(h1) != string(h1v) {
+			c.Violate("configuration hash depends on a characteristic value", id, in, hx(h1), hx(h1v))
+		}
+		c.Count(id, true, "stream:hash-precision")
+	}
+}
